@@ -70,24 +70,25 @@ where
             self.l3s.push_back(T::zero());
             return;
         } else {
-            let last = self.l0s.len() - 1;
+            // `prev` indexes the previous step; each push makes `prev + 1` the current one.
+            let prev = self.l0s.len() - 1;
             self.l0s.push_back(
-                (T::one() - self.gamma) * val + self.gamma * *self.l0s.get(last - 1).unwrap(),
+                (T::one() - self.gamma) * val + self.gamma * *self.l0s.get(prev).unwrap(),
             );
             self.l1s.push_back(
-                -self.gamma * *self.l0s.get(last).unwrap()
-                    + *self.l0s.get(last - 1).unwrap()
-                    + self.gamma * *self.l1s.get(last - 1).unwrap(),
+                -self.gamma * *self.l0s.get(prev + 1).unwrap()
+                    + *self.l0s.get(prev).unwrap()
+                    + self.gamma * *self.l1s.get(prev).unwrap(),
             );
             self.l2s.push_back(
-                -self.gamma * *self.l1s.get(last).unwrap()
-                    + *self.l1s.get(last - 1).unwrap()
-                    + self.gamma * *self.l2s.get(last - 1).unwrap(),
+                -self.gamma * *self.l1s.get(prev + 1).unwrap()
+                    + *self.l1s.get(prev).unwrap()
+                    + self.gamma * *self.l2s.get(prev).unwrap(),
             );
             self.l3s.push_back(
-                -self.gamma * *self.l2s.get(last).unwrap()
-                    + *self.l2s.get(last - 1).unwrap()
-                    + self.gamma * *self.l3s.get(last - 1).unwrap(),
+                -self.gamma * *self.l2s.get(prev + 1).unwrap()
+                    + *self.l2s.get(prev).unwrap()
+                    + self.gamma * *self.l3s.get(prev).unwrap(),
             );
         }
         let last = self.l0s.len() - 1;
